@@ -8,6 +8,7 @@ use serde_json::{json, Value};
 pub mod dewey;
 pub mod names;
 pub mod pattern;
+pub mod summary;
 
 #[derive(Default)]
 pub struct State {
@@ -56,6 +57,9 @@ pub fn run(st: &mut State, op: &str, input: &Value) -> Option<Out> {
         "pkgname" => Some(names::pkgname(input)),
         "pkgpath" => Some(names::pkgpath(input)),
         "depend" => Some(names::depend(input)),
+        "sumhist" => Some(summary::sumhist(input)),
+        "sumparse" => Some(summary::sumparse(input)),
+        "stream" => Some(summary::stream(input)),
         _ => Some(Out::new(json!({"unknown_op": op}), 0, 0)),
     }
 }
@@ -94,7 +98,7 @@ pub fn compare(st: &State, op: &str, case: &Value, obs: &Value) -> Vec<Mismatch>
                         }
                     }
                     _ => {
-                        if e != o {
+                        if !accepts(e, o) {
                             let mut tag = String::new();
                             if let Some(a) = alt.and_then(|a| a.as_object()) {
                                 for (t, v) in a {
